@@ -110,12 +110,12 @@ def uToRepresentative (u : Nat) (tweak : UInt8) : Option Bytes :=
 /-- `x25519ell2.ScalarBaseMult(publicKey, representative, privateKey, tweak)`:
 `some (publicKey, representative)` when it returns `true`, `none` when `false` -/
 def scalarBaseMult (privateKey : Bytes) (tweak : UInt8) : Option (Bytes × Bytes) :=
-  match scalarBaseMultDirtyU privateKey with
-  | none => none
-  | some u =>
-    match uToRepresentative u tweak with
-    | none => none   -- No representative.
-    | some representative => some (toBytes u, representative)
+  -- u := scalarBaseMultDirty(privateKey); if !uToRepresentative(representative, u, tweak) { return false }
+  -- copy(publicKey[:], u.Bytes()); return true
+  -- (written with bind/map rather than nested matches so that proofs never make the kernel
+  --  normalise the discriminants)
+  (scalarBaseMultDirtyU privateKey).bind fun u =>
+    (uToRepresentative u tweak).map fun representative => (toBytes u, representative)
 
 /-- `elligator2.MontgomeryFlavor(r)`: `(u, v)` -/
 def montgomeryFlavor (r : Nat) : Nat × Nat :=
